@@ -145,7 +145,8 @@ def same_value_twice(x, p):
 
 SOURCES = [b'?"hi" // note\nx=1 -- c\nif (x) y=2 else y=3\n',
            b'x+=1 y-=2\nz="a\\65"..[[l\n]] // d\n::l:: goto l\n',
-           b'function _update() end\nlocal t={1,2;3}\nif (t) ?t[1]\n']
+           b'function _update() end\nlocal t={1,2;3}\nif (t) ?t[1]\n',
+           b'// head\n\n  // own line\nx=1 // tail\n\t--[[ b ]]\n?x\n']
 
 
 def after_other_writer(x, p):
